@@ -11,6 +11,8 @@ import warnings
 
 import torch
 
+torch.set_num_threads(1)
+
 import vlib
 from vlib import cl, cn, clz, cp, cz, coq_eval_bools, coq_eval_print, exc_kind, shrink
 
@@ -358,7 +360,7 @@ def c_idx(idx):
 
 def model_query_term(q, out):
     """model (evaluated on the implementation's buffers b, shape sh) = implementation"""
-    if not representable(out):
+    if not isinstance(out, str) and not representable(out):
         return "false"
     h, B = c_hist(q["hist"]), cn(q["B"])
     if q.get("chunk") is not None:
@@ -638,7 +640,8 @@ def gen_arpa(rng, malformed=False):
                 with_ids=rng.random() < 0.8, from_path=rng.random() < 0.25)
 
 
-def classify(line, word2id):
+def classify(line, word2id, strict=True):
+    """strict = a token2id map is passed to the reader (an unknown word is a KeyError)"""
     s = line.strip()
     if not s:
         return "LBlank"
@@ -660,7 +663,7 @@ def classify(line, word2id):
             return None
         fs = []
         for tok in m.group(2).strip().split():
-            i = word2id.get(tok)
+            i = word2id.get(tok) if strict else word2id.get(tok, -1)
             try:
                 f = enc(float(tok))
                 if not isinstance(f, int):
@@ -714,7 +717,7 @@ def run_arpa(chk, case):
 
 def arpa_term(case, out):
     w2i = {w: i for i, w in enumerate(case["words"])}
-    ls = [classify(l, w2i) for l in case["text"].splitlines()]
+    ls = [classify(l, w2i, case["with_ids"]) for l in case["text"].splitlines()]
     if any(x is None for x in ls):
         return None
     if isinstance(out, str):
@@ -887,7 +890,7 @@ def run(chk, cases=None):
         else:
             out = results[ci]
             w2i = {w: i for i, w in enumerate(case["words"])}
-            ls = [classify(l, w2i) for l in case["text"].splitlines()]
+            ls = [classify(l, w2i, case["with_ids"]) for l in case["text"].splitlines()]
             rec = {"case": case, "impl": out,
                    "model": coq_eval_print(chk.workdir, IMPORTS, f"parse_arpa {cl(ls)}"),
                    "what": "parse_arpa_lm does not return exactly the listed entries (or accepts/rejects a file differently from the reader's documented behaviour)",
